@@ -81,7 +81,7 @@ def main():
     es = entries()
     if a.props:
         es = [e for e in es if e[0] in a.props.split(",")]
-    with ProcessPoolExecutor(max_workers=8) as ex:
+    with ProcessPoolExecutor(max_workers=14) as ex:
         results = list(ex.map(run_one, es))
     bad = 0
     for (prop, commit, text), status, first in results:
